@@ -211,6 +211,26 @@ def r26_3(ctx, rep):
         raise AnalysisError(R, "fewer than 3 per-model worker calls found")
 
 
+@SPEC.rule("R26.4", "the process exit status is main()'s return value: the __main__ block passes it to sys.exit; argument errors use argparse's error() (exit code 2)")
+def r26_4(ctx, rep):
+    R = "R26.4"
+    mod = ctx.module(CLI, R)
+    ok = False
+    for st in mod.body:
+        if isinstance(st, ast.If) and "__name__" in norm(st.test):
+            var = None
+            for s in st.body:
+                if isinstance(s, ast.Assign) and isinstance(s.value, ast.Call) and call_name(s.value) == "main" and isinstance(s.targets[0], ast.Name):
+                    var = s.targets[0].id
+                if isinstance(s, ast.Expr) and isinstance(s.value, ast.Call) and call_name(s.value) == "sys.exit" and s.value.args:
+                    a = s.value.args[0]
+                    ok = (var is not None and is_name(a, var)) or (isinstance(a, ast.Call) and call_name(a) == "main")
+    rep.ob(R, CLI + ":__main__", "sys.exit(main(...))", ok, "the exit status must be the error count returned by main()")
+    fn = ctx.func(CLI, "main", R)
+    errs = [c for c in calls(fn) if call_name(c) == "argp.error"]
+    rep.ob(R, CLI + ":main", "invalid option combination -> argp.error", len(errs) >= 1, "an invalid combination of arguments must go through argparse's error() (usage message, exit code 2)")
+
+
 # -- seeded variants ---------------------------------------------------------
 from ._mut import delete_stmt_where, replace_in_func  # noqa: E402
 
